@@ -155,7 +155,10 @@ func runC13(r *Run) {
 			kg := callsMatching(h, false, nameIs("field:limiter.Config.KeyGenerator"))
 			r.need(len(kg) == 1, name+" calls KeyGenerator once")
 			for i, c := range callsMatching(h, false, isGetSet) {
-				r.check(flowsUnchanged(c.Common.Args[1], kg[0].Value()), fmt.Sprintf("%s:%s#%d:key", name, short(c.Name), i), r.pos(c.Instr), "key = KeyGenerator(c)", "storage is accessed with a key other than the KeyGenerator result (other clients' budgets are affected)")
+				// the key itself, or a private copy of it (the same text)
+				key := c.Common.Args[1]
+				same := flowsUnchangedOrCopied(key, kg[0].Value())
+				r.check(same, fmt.Sprintf("%s:%s#%d:key", name, short(c.Name), i), r.pos(c.Instr), "key = KeyGenerator(c)", "storage is accessed with a key other than the KeyGenerator result (other clients' budgets are affected)")
 			}
 		}
 	})
@@ -379,6 +382,34 @@ func runC13(r *Run) {
 				"configDefault keeps an Expiration the handlers truncate to 0 seconds (the fallback tests the raw duration): with Expiration: 500ms the fixed window resets on every request and admits everything, the sliding window divides 0 by 0 and rejects everything")
 		}
 		r.atLeast("default Expiration stores", n, 1)
+	})
+
+	r.rule("R13", "the key a request is counted under is a private copy: what the key generator answers may be a view of request memory (c.IP() behind a ProxyHeader, c.Get(…)), and the stores keep the key string they are given — as a map key it would be rewritten by the next request on the connection (E3)", func() {
+		n := 0
+		for name, h := range limiterHandlers(r) {
+			isKeyGen := func(v ssa.Value) bool {
+				c, ok := v.(*ssa.Call)
+				return ok && calleeName(&c.Call) == "field:limiter.Config.KeyGenerator"
+			}
+			for _, c := range callsMatching(h, false, nameHasSuffix("limiter.manager).get", "limiter.manager).set")) {
+				key := c.Common.Args[1]
+				if dependsOn(key, isKeyGen) == nil {
+					continue
+				}
+				n++
+				copied := dependsOn(key, func(v ssa.Value) bool {
+					cc, ok := v.(*ssa.Call)
+					if !ok {
+						return false
+					}
+					nm := calleeName(&cc.Call)
+					return strings.HasSuffix(nm, "utils/v2.CopyString") || nm == "strings.Clone"
+				}) != nil
+				r.check(copied, fmt.Sprintf("%s:%s#%d:key-is-a-copy", name, short(c.Name), n), r.pos(c.Instr), "the key handed to the store went through a copy",
+					"the limiter hands the key generator's answer to its store as it is: with ProxyHeader set the default key c.IP() is a view of the request header, the in-memory stores keep that string as their map key, and the next request on the connection rewrites it — a new client is charged to (and rejected for) another client's entry")
+			}
+		}
+		r.atLeast("keyed store accesses in the handlers", n, 4)
 	})
 
 	r.rule("R10", "the sliding window keeps an entry into the next window: every manager.set of its handler uses a lifetime that includes the time left in the current window (E5)", func() {
